@@ -15,7 +15,9 @@ META = {
     "outside_bounds": "AES itself (hence 'a different key never returns m' only as the plumbing statement that "
                       "Decrypt hands its own key and the transmitted IV to the cipher); messages longer than the "
                       "bound (the wrapper does not branch on length beyond the contract checks)",
-    "stubs": ["cryptography Cipher/algorithms/modes: ideal cipher", "PKCS7 padder: pure Python", "os.urandom: coins"],
+    "stubs": ["cryptography Cipher/algorithms/modes: ideal cipher", "cryptography.hazmat.primitives.padding (inside "
+              "toolkit.symmetric_padding): pure-Python PKCS7 padder/unpadder objects, so the repository's "
+              "pkcs7_pad/pkcs7_unpad themselves run symbolically", "os.urandom: coins"],
     "assumptions": ["AES-CBC is a length-preserving keyed permutation family on padded messages; OS randomness "
                     "returns distinct values on distinct calls"],
     "functions": ["toolkit.symmetric_encryption.aes.AESxCBC.{__init__,KeyGen,Encrypt,Decrypt}",
@@ -24,7 +26,7 @@ META = {
 
 
 def prepare(P):
-    import toolkit.symmetric_encryption.aes  # noqa
+    import toolkit.symmetric_encryption.aes, toolkit.symmetric_padding  # noqa
     if not P.get("_native"):
         from env import ideal
         ideal.install()
@@ -144,6 +146,44 @@ def h_contracts(P, S):
     return True
 
 
+def h_pad(P, S):
+    """the repository's pkcs7_pad: exact PKCS7 for every message of the length"""
+    from toolkit.symmetric_padding import pkcs7_pad
+    n = P["n"]
+    m = S.bytes("m", n)
+    out = pkcs7_pad(m, 128)
+    p = 16 - n % 16
+    return True if out == m + bytes([p]) * p else S.fail("pad")
+
+
+def h_unpad(P, S):
+    """the repository's pkcs7_unpad is STRICT: it returns r exactly when the input is r followed by p bytes of
+    value p (1 <= p <= 16), and raises ValueError on every other input - this strictness is what turns a
+    wrong-key decryption into an error (DP17 relies on it)"""
+    from toolkit.symmetric_padding import pkcs7_unpad
+    n = P["n"]
+    x = S.bytes("x", n)
+    valid = False
+    if n > 0 and n % 16 == 0:
+        last = x[n - 1]
+        for p in range(1, 17):
+            if last == p:
+                ok = True
+                for j in range(p):
+                    if x[n - 1 - j] != p:
+                        ok = False
+                        break
+                valid = ok
+                break
+    try:
+        r = pkcs7_unpad(x, 128)
+    except ValueError:
+        return True if not valid else S.fail("valid-padding-refused")
+    if not valid:
+        return S.fail("invalid-padding-accepted")
+    return True if r == x[:n - x[n - 1]] else S.fail("unpad-result")
+
+
 def h_tamper(P, S):
     """Decrypt of a ciphertext whose length is not 16 + a positive multiple of 16 raises; truncated ones raise"""
     if not P.get("_native"):
@@ -173,6 +213,10 @@ def obligations(tier, seed):
     for n in (0, 5, 16, 31):
         obs.append(ob("c14.roundtrip.symkey.n%d" % n, "harness.c14", "h_roundtrip",
                       {"n": n, "kl": 16, "seed": seed, "symbolic_key": True}, budget_s=200))
+    for n in (range(0, 34) if q else range(0, 81)):
+        obs.append(ob("c14.pad.n%d" % n, "harness.c14", "h_pad", {"n": n}, budget_s=200))
+    for n in (0, 1, 15, 16, 17, 32):
+        obs.append(ob("c14.unpad.n%d" % n, "harness.c14", "h_unpad", {"n": n}, budget_s=400))
     obs.append(ob("c14.contracts", "harness.c14", "h_contracts", {}, budget_s=400))
     obs.append(ob("c14.tamper", "harness.c14", "h_tamper", {}, budget_s=200))
     obs.append(twin("c14.twin", "harness.c14", "h_roundtrip", {"n": 5, "kl": 16, "twin": True}))
